@@ -107,18 +107,20 @@ NA_REASON = "check not built yet in this round (see DESIGN.md section 10 build o
 ALL = ["C%02d" % i for i in range(1, 21)]
 # oracles and input families added after fresh agents' seeded changes were missed (DESIGN 11.6)
 ADDENDA = {
- "C01": " Also evaluated after every application: no two code tokens touch so that the emitted text reads them as one lexical element (glue_free). Inputs include letter-case, pragma, comp_off and squeezed variants, documented indentation configurations, combined prefix / suffix exceptions and every default-disabled rule switched on.",
+ "C01": " Also evaluated after every application: no two code tokens touch so that the emitted text reads them as one lexical element (glue_free). Inputs include letter-case, pragma, comp_off and squeezed variants, documented indentation configurations, combined prefix / suffix exceptions and every default-disabled rule switched on. An end name added by the run must repeat the name its construct starts with (nesting followed per token module).",
  "C02": " Removers of trailing comments must only drop trailing comments (edit_trailing, judged in the context of the whole list; theorem C02_trailing_removers_keep_own_line_comments).",
  "C04": " Through the CLI also: files that are violation free because every rule is disabled or the whole file is inside vsg_off must keep bytes, inode and mtime under --fix.",
  "C06": " Also: a disable / re-enable history on the rule list object that has already checked the file, and a pass with the about 80 default-disabled rules switched on with per-rule attribute snapshots.",
  "C07": " Also: the report of a plain check of the same input against what the fix run does while the token list is still the input's; fixes that change no line although lines were reported.",
  "C08": " Proved in addition: what the reader returns has the reader shape (no empty line, blank_line alone, no empty whitespace), a model that re-reads as itself must have it, the repaired phase-1 normaliser leaves every blank_line alone on its line. The extracted checker names the rule application after which the shape is lost. Also compared: a second indent pass on the unchanged list, and through the CLI the report of `vsg --fix` against a plain run on the written file under configurations with unrepaired and warning-severity rules.",
  "C09": " Proved in addition: on what the reader returns for a text without trailing whitespace both normalisers are the identity (C09_second_run_normalisation_is_identity); without hypothesis idempotence is refuted (adjacent whitespace objects).",
+ "C11": " The wrapped-file test also runs under global configurations (user_error_message, severity, indent_size).",
+ "C13": " The skip set the configuration file asks for is the reference, not the set VSG derived from it.",
  "C15": " Batches also contain neighbours that end inside an open comp_off / translate_off region, delimited comment or vsg_off region, and every third batch loads the repository's example local rules.",
  "C16": " The CLI part also runs --fix --backup over an older / same-age / newer backup left by an earlier run.",
  "C17": " Per-file keys and -f names are also spelled in non-normalised form (./f.vhd, d/../f.vhd).",
  "C18": " Also after every application: no token object stands at two positions of the list (theorem C18_update_keeps_objects_distinct gives the condition under which update preserves this).",
- "C19": " Also: 28 files with lexically awkward comment and statement lines (odd quote counts, quote characters as literals, lone backslashes) through --fix.",
+ "C19": " Also: 28 files with lexically awkward comment and statement lines (odd quote counts, quote characters as literals, lone backslashes) through --fix, and files whose first line is malformed.",
  "C20": " Also: several line-local rules listed together with all their lines; every listed violation must be gone afterwards.",
 }
 for _k, _t in ADDENDA.items():
